@@ -690,6 +690,7 @@ def c09(sc, V):
     order = []
     owner = {}
     pending_exit = {}      # pid -> expected exit_code for self exits / outside kills while active
+    wait_status = {}       # pid -> wait status the daemon collected (kernel line `reap pid status`)
     for s in V:
         if s.before.blocked:
             break
@@ -699,6 +700,14 @@ def c09(sc, V):
         for l in s.lines:
             if l[0] == "spawn":
                 owner[l[1]] = l[2]
+            if l[0] == "reap":
+                wait_status[l[1]] = l[2]          # the daemon obtained this wait status from the kernel
+            if l[0] == "ev" and l[2] == "reap" and l[3] in wait_status:
+                st = wait_status[l[3]]
+                exp = -(st & 0x7F) if (st & 0x7F) else (st >> 8) & 0xFF
+                if l[4] != str(exp):
+                    f.append({"sig": "exit-code-not-the-wait-status", "step": s.n,
+                              "msg": "pid %d: the kernel reported wait status %d (exit code %d), the reap event says %s" % (l[3], st, exp, l[4])})
             if l[0] == "ev" and l[2] == "spawn":
                 if l[3] in spawn_ev:
                     f.append({"sig": "two-spawn-events", "step": s.n, "msg": "pid %d announced twice" % l[3]})
@@ -744,6 +753,12 @@ def c09(sc, V):
             unann = [p for p in live if p in reap_ev]
             if unann:
                 f.append({"sig": "live-but-reaped", "step": s.n, "msg": "%r" % unann})
+            # with nothing in flight a `kill` event means the worker is gone (the stop signal is followed by SIGKILL):
+            # a subscriber drops the pid from its live set when it sees the event
+            wrongly = [p for p in live if p in kill_ev and a.kernel.get(p, ("g", 0))[0] == "r"]
+            if wrongly:
+                f.append({"sig": "kill-event-for-surviving-worker", "step": s.n,
+                          "msg": "pids %r were announced killed but are running and listed with nothing in flight" % sorted(wrongly)})
         # start/stop events agree with status at quiescence
         if a.quiescent():
             last = {}
